@@ -69,6 +69,7 @@ var gfTargets = []gfTarget{
 	{"waiter", "core/coreutil/waiter.go", "gen_prog_waiter", []string{"Waiter.IsSlowDown", "Waiter.Wait", "Waiter.IsFinished"}, false}, // C04 (IsFinished: also C03)
 	{"instance", "core/engine/instance.go", "gen_prog_instance", []string{"instance.Run"}, true},                   // C03
 	{"runinst", "core/engine/engine.go", "gen_prog_runinst", []string{"runNewInstance"}, true},                     // C05
+	{"phoutrun", "core/aggregator/netsample/phout.go", "gen_prog_phoutrun", []string{"phoutAggregator.Run"}, true}, // C06
 }
 
 // constructors whose single composite-literal argument wraps the value that is returned
@@ -89,7 +90,7 @@ var gfExternalIdent = map[string]bool{"newInstance": true}
 
 // package-qualified constructors of opaque values: `x := ctor(args)` declares x opaque (only method calls
 // on it are possible) and is an external call without arguments
-var gfOpaqueCtor = map[string]bool{"coreutil.NewWaiter": true}
+var gfOpaqueCtor = map[string]bool{"coreutil.NewWaiter": true, "time.NewTicker": true}
 
 // build-time switches read as inputs
 var gfQualInput = map[string]bool{"tag.Debug": true}
@@ -173,6 +174,10 @@ type gfFn struct {
 	localK   map[string]gfKind
 	nck      int             // temporaries "$c<k>" of conditions that contain calls
 	closure  *gfClosure      // set while the body of an immediately invoked func literal is translated
+	labels   []string                // enclosing labelled loops, innermost last
+	labelOf  map[*ast.ForStmt]string // the label of a labelled for statement
+	loopDepth int                    // number of enclosing for statements
+	selAt     []int                  // loopDepth at each enclosing select (a plain break there would leave the select)
 }
 
 // an immediately invoked `x := func() T { ... }()`: the body is inlined; `return e` becomes `x = e` followed by the
@@ -966,10 +971,23 @@ func (t *gfFn) stmt(st ast.Stmt) ([]string, error) {
 				c = s
 			}
 		}
+		myLabel := t.labelOf[x]
+		t.labels = append(t.labels, myLabel)
+		t.loopDepth++
 		body, err := t.block(x.Body.List)
+		t.loopDepth--
+		t.labels = t.labels[:len(t.labels)-1]
 		if err != nil {
 			return nil, err
 		}
+		// labels of enclosing loops that the body breaks to: leave this loop too when the flag is set
+		var after []string
+		for _, l := range t.labels {
+			if l != "" && gfBreaksTo(x.Body, l) {
+				after = append(after, fmt.Sprintf("SIf (EVar %s)\n(SBreak)\n(SSkip)", gfQ("$brk_"+l)))
+			}
+		}
+		defer func() { _ = after }()
 		if condPre != nil {
 			cond := condPre[len(condPre)-1]
 			body = gfSeq(append(condPre[:len(condPre)-1], fmt.Sprintf("SIf (%s)\n(%s)\n(SBreak)", cond, body)))
@@ -982,14 +1000,41 @@ func (t *gfFn) stmt(st ast.Stmt) ([]string, error) {
 			}
 			post = gfSeq(s)
 		}
-		return append(out, fmt.Sprintf("SFor (%s)\n(%s)\n(%s)", c, body, post)), nil
+		out = append(out, fmt.Sprintf("SFor (%s)\n(%s)\n(%s)", c, body, post))
+		return append(out, after...), nil
+	case *ast.LabeledStmt:
+		fs, ok := x.Stmt.(*ast.ForStmt)
+		if !ok || !t.f.traced {
+			return nil, t.errf(x, "label on something that is not a for statement (traced targets only)")
+		}
+		if t.labelOf == nil {
+			t.labelOf = map[*ast.ForStmt]string{}
+		}
+		t.labelOf[fs] = x.Label.Name
+		return t.stmt(fs)
 	case *ast.BranchStmt:
+		if x.Label != nil && x.Tok == token.BREAK && t.f.traced {
+			// break L: a flag is set and the innermost loop is left; every loop between here and L leaves when it
+			// sees the flag (emitted by the ForStmt case)
+			found := false
+			for _, l := range t.labels {
+				if l == x.Label.Name {
+					found = true
+				}
+			}
+			if !found {
+				return nil, t.errf(x, "break to a label that is not an enclosing loop")
+			}
+			v := "$brk_" + x.Label.Name
+			t.noteLocal(v, gkScalar)
+			return []string{fmt.Sprintf("SAssign [%s] [ELit 1]", gfQ(v)), "SBreak"}, nil
+		}
 		if x.Label != nil {
 			return nil, t.errf(x, "labelled %s", x.Tok)
 		}
 		switch x.Tok {
 		case token.BREAK:
-			if t.inSel > 0 {
+			if len(t.selAt) > 0 && t.selAt[len(t.selAt)-1] == t.loopDepth {
 				return nil, t.errf(x, "break inside a select clause")
 			}
 			return []string{"SBreak"}, nil
@@ -1102,53 +1147,88 @@ func (t *gfFn) stmt(st ast.Stmt) ([]string, error) {
 		t.fnDefers = append([]string{b}, t.fnDefers...)
 		return nil, nil
 	case *ast.SelectStmt:
-		// the input "$sel<k>" = index (source order) of the clause that fires
+		// untraced: the input "$sel<k>" = index (source order) of the clause that fires.
+		// traced: the clause is chosen by the oracle at every execution (external call "select#<k>"), a clause
+		// `case v := <-ch` receives its value by a second external call "<-ch".
 		k := t.nsel
 		t.nsel++
+		t.selects = append(t.selects, "")
 		v := fmt.Sprintf("$sel%d", k)
-		t.input(v)
+		var head []string
+		if t.f.traced {
+			t.noteLocal(v, gkScalar)
+			call := &gfCall{kind: "SExt", name: fmt.Sprintf("select#%d", k), traced: true}
+			head = call.stmt([]string{v})
+		} else {
+			t.input(v)
+		}
 		var names, bodies []string
 		t.inSel++
-		defer func() { t.inSel-- }()
+		t.selAt = append(t.selAt, t.loopDepth)
+		defer func() { t.inSel--; t.selAt = t.selAt[:len(t.selAt)-1] }()
 		for _, cl := range x.Body.List {
 			cc := cl.(*ast.CommClause)
+			var recv []string
+			t.push()
 			switch {
 			case cc.Comm == nil:
 				names = append(names, "default")
 			default:
-				es, ok := cc.Comm.(*ast.ExprStmt)
 				var u *ast.UnaryExpr
-				if ok {
-					u, ok = es.X.(*ast.UnaryExpr)
+				target := ""
+				switch cs := cc.Comm.(type) {
+				case *ast.ExprStmt:
+					u, _ = cs.X.(*ast.UnaryExpr)
+				case *ast.AssignStmt:
+					if t.f.traced && cs.Tok == token.DEFINE && len(cs.Lhs) == 1 && len(cs.Rhs) == 1 {
+						if id, ok := cs.Lhs[0].(*ast.Ident); ok {
+							u, _ = cs.Rhs[0].(*ast.UnaryExpr)
+							target = id.Name
+						}
+					}
 				}
-				if !ok || u.Op != token.ARROW {
-					return nil, t.errf(cc, "select clause is not a plain receive `<-ch`")
+				if u == nil || u.Op != token.ARROW {
+					t.pop()
+					return nil, t.errf(cc, "select clause is not a plain receive `<-ch` (or `v := <-ch` in traced targets)")
 				}
 				ch := u.X
-				if c, isCall := ch.(*ast.CallExpr); isCall && len(c.Args) == 0 {
+				if c, isCall := ch.(*ast.CallExpr); isCall && (len(c.Args) == 0 || t.f.traced) {
 					ch = c.Fun
 				}
 				root := gfRoot(ch)
-				if root == nil || !t.opaque[root.Name] {
+				if root == nil || !(t.opaque[root.Name] || (t.f.traced && root.Name == "time")) {
+					t.pop()
 					return nil, t.errf(cc, "select receives from something that is not a channel of a parameter")
 				}
 				names = append(names, gfCallName(ch))
+				if target != "" {
+					if err := t.declare(cc, target, gkScalar); err != nil {
+						t.pop()
+						return nil, err
+					}
+					call := &gfCall{kind: "SExt", name: "<-" + gfCallName(ch), traced: true}
+					recv = call.stmt([]string{target})
+				}
 			}
 			b, err := t.block(cc.Body)
+			t.pop()
 			if err != nil {
 				return nil, err
+			}
+			if len(recv) > 0 {
+				b = gfSeq(append(recv, b))
 			}
 			bodies = append(bodies, b)
 		}
 		if len(bodies) == 0 {
 			return nil, t.errf(x, "empty select")
 		}
-		t.selects = append(t.selects, gfStrList(names))
+		t.selects[k] = gfStrList(names)
 		s := bodies[len(bodies)-1]
 		for i := len(bodies) - 2; i >= 0; i-- {
 			s = fmt.Sprintf("SIf (EBin OEq (EVar %s) (ELit %d))\n(%s)\n(%s)", gfQ(v), i, bodies[i], s)
 		}
-		return []string{s}, nil
+		return append(head, s), nil
 	}
 	return nil, t.errf(st, "unsupported statement %T", st)
 }
@@ -1162,6 +1242,18 @@ func gfHasCall(e ast.Node) bool {
 			default:
 				found = true
 			}
+		}
+		return !found
+	})
+	return found
+}
+
+// gfBreaksTo: the node contains `break L`
+func gfBreaksTo(n ast.Node, label string) bool {
+	found := false
+	ast.Inspect(n, func(m ast.Node) bool {
+		if b, ok := m.(*ast.BranchStmt); ok && b.Tok == token.BREAK && b.Label != nil && b.Label.Name == label {
+			found = true
 		}
 		return !found
 	})
@@ -1397,6 +1489,9 @@ func (f *gfFile) translate(key string) (string, error) {
 	addParam := func(n *ast.Ident, typ ast.Expr, isParam bool) error {
 		k := gfKindOf(typ)
 		if n.Name == "_" {
+			if k == gkOpaque {
+				return nil // an unused opaque parameter
+			}
 			return t.errf(n, "blank parameter")
 		}
 		t.scopes[0][n.Name] = k
